@@ -58,22 +58,34 @@ class Reader:
         if t[0] == 'bin' and t[1] in ('Add', 'Sub'):
             a, b = self.poly(t[2]), self.poly(t[3])
             return padd(a, b) if t[1] == 'Add' else psub(a, b)
+        if t[0] == 'un' and t[1] == 'USub':
+            return pneg(self.poly(t[2]))
+        if t[0] == 'bin' and t[1] == 'Mult' and (is_num(t[2]) or is_num(t[3])):
+            return pmul(self.poly(t[2]), self.poly(t[3]))
         raise Unknown('not linear in the line index and the header counts: ' + show(t)[:80])
 
     def bound(self, g):
-        """guard -> ('lo'|'hi'|'eq', poly) on idx, or None if it does not mention idx."""
+        """guard -> ('lo'|'hi'|'eq', poly) on idx, or None if it does not mention idx.  Any linear arrangement is accepted
+        (terms may sit on either side of the comparator) as long as the index has coefficient +-1."""
         neg = False
         while g[0] == 'not':
             neg, g = not neg, g[1]
         if g[0] != 'cmp' or not contains(g, lambda x: x == self.idx):
             return None
-        op, a, b = g[1], g[2], g[3]
-        if contains(b, lambda x: x == self.idx) and not contains(a, lambda x: x == self.idx):
-            op = {'Lt': 'Gt', 'LtE': 'GtE', 'Gt': 'Lt', 'GtE': 'LtE', 'Eq': 'Eq', 'NotEq': 'NotEq'}[op]
-            a, b = b, a
-        if a != self.idx:
+        op = g[1]
+        if op not in ('Lt', 'LtE', 'Gt', 'GtE', 'Eq', 'NotEq'):
             raise Unknown('index test ' + show(g))
-        e = self.poly(b)
+        d = psub(self.poly(g[2]), self.poly(g[3]))          # d <op> 0
+        c = d.get(('idx',), 0)
+        if c not in (1, -1) or any('idx' in m and m != ('idx',) for m in d):
+            raise Unknown('index test is not linear in the line index: ' + show(g))
+        rest = {m: v for m, v in d.items() if m != ('idx',)}
+        # c*idx + rest <op> 0   ->   idx <op'> e
+        if c == 1:
+            e = pneg(rest)
+        else:
+            e = rest
+            op = {'Lt': 'Gt', 'LtE': 'GtE', 'Gt': 'Lt', 'GtE': 'LtE', 'Eq': 'Eq', 'NotEq': 'NotEq'}[op]
         if neg:
             op = {'Lt': 'GtE', 'LtE': 'Gt', 'Gt': 'LtE', 'GtE': 'Lt', 'Eq': 'NotEq', 'NotEq': 'Eq'}[op]
         if op == 'Lt': return ('hi', psub(e, pconst(1)))
@@ -159,6 +171,42 @@ class Reader:
         if t[0] == 'slice' and self.is_fields(t[1]) and t[2][0] == 'const' and t[3] == NONE:
             return t[2][1]
         return None
+
+
+def own_id_ok(R, term, want, wl, wh, at_effect):
+    """term is the 1-based id of the current line within its section: the linear form `want`, or len(model.<list>) read
+    after this line's single append into that list (count invariant: one append per line of the section)."""
+    try:
+        return R.poly(term) == want
+    except Unknown:
+        pass
+    if term[0] == 'call' and term[1] == S('len') and len(term[2]) == 1 and term[2][0][0] == 'attr' and term[2][0][1] == R.model:
+        aps = R.appends(term[2][0][2])
+        if len(aps) == 1:
+            lo2, hi2, oth2 = R.interval(aps[0][1])
+            order = {id(ee): i for i, (ee, _) in enumerate(iter_effects(R.loop.body))}
+            return lo2 == wl and hi2 == wh and not oth2 and order[id(aps[0][0])] < order.get(id(at_effect), 10 ** 9)
+    return False
+
+
+def rank_keys(R):
+    """(key tuple term, effect, ctx) for every place where second-side ranks are recorded per (lecturer id, student id)."""
+    out = []
+    for e, ctx in iter_effects(R.loop.body):
+        if e.kind == 'acc' and e.op == 'setidx' and e.index is not None and e.index[0] == 'tuple' and len(e.index[1]) == 2:
+            out.append((e.index, e, ctx))
+            continue
+        terms = [v for k, v in e.__dict__.items() if isinstance(v, tuple) and v and isinstance(v[0], str)]
+        for t in terms:
+            for x in walk(t):
+                if x[0] == 'dictcomp' and x[2][0] == 'tuple' and len(x[2][1]) == 2:
+                    out.append((x[2], e, ctx))
+    seen, uniq = set(), []
+    for k, e, c in out:
+        if k not in seen:
+            seen.add(k)
+            uniq.append((k, e, c))
+    return uniq
 
 
 def run(rep, repo, tier):
@@ -261,10 +309,7 @@ def check_reader(rep, R):
             rep.check(R.field(e.value) == 3, 'C10.R3', w, 'supervising lecturer = field 3 of the project line %s' % cfg, got=show(e.value).replace(show(R.line), 'line'),
                       want='int(fields[3])', construct='project lecturer <- %s' % show(e.value).replace(show(R.line), 'line'), loc=e.loc)
         else:
-            try:
-                okv = R.poly(e.value) == psub(patom('idx'), ns)
-            except Unknown:
-                okv = False
+            okv = own_id_ok(R, e.value, psub(patom('idx'), ns), pl, ph, e)
             rep.check(okv, 'C10.R5', w, 'hospital j is offered by its own lecturer j (j = line index - n_s) %s' % cfg, got=show(e.value).replace(show(R.line), 'line'),
                       want='index - num_students', construct='embedding lecturer id ' + show(e.value).replace(show(R.line), 'line'), loc=e.loc)
     # ---- preference-list slices and ids ----
@@ -307,23 +352,12 @@ def check_reader(rep, R):
             rep.check(lo == wl and hi == wh and not other, 'C10.R3', w, 'second-side lists are read on the lecturer/hospital section %s' % cfg,
                       got='%s..%s %s' % (pshow(lo), pshow(hi) if hi is not None else 'inf', [show(o) for o in other]), construct='second-side section %s' % cfg, loc=e.loc)
             # key (lecturer id, student) of the rank dictionary
-            keys = [(x, c) for x, c in iter_effects(R.loop.body) if x.kind == 'acc' and x.op == 'setidx' and x.index is not None and x.index[0] == 'tuple']
+            keys = rank_keys(R)
             if keys:
-                x, c = keys[0]
-                lid = x.index[1][0]
+                key, x, c = keys[0]
+                lid = key[1][0]
                 want = psub(patom('idx'), ns) if R.na == 2 else psub(patom('idx'), padd(ns, np_))
-                okk = False
-                try:
-                    okk = R.poly(lid) == want
-                except Unknown:
-                    # accepted: len(model.<list>) read after this line's single append into it (count invariant)
-                    if lid[0] == 'call' and lid[1] == S('len') and lid[2][0][0] == 'attr' and lid[2][0][1] == R.model:
-                        attr = lid[2][0][2]
-                        aps = R.appends(attr)
-                        if len(aps) == 1:
-                            lo2, hi2, oth2 = R.interval(aps[0][1])
-                            order = {id(ee): i for i, (ee, _) in enumerate(iter_effects(R.loop.body))}
-                            okk = lo2 == wl and hi2 == wh and not oth2 and order[id(aps[0][0])] < order[id(x)]
+                okk = own_id_ok(R, lid, want, wl, wh, x)
                 rep.check(okk, 'C10.R2', w, 'second-side ranks are keyed by the id of their own line (index - (start - 1)) %s' % cfg, got=show(lid).replace(show(R.line), 'line'),
                           want=pshow(want), construct='second-side id %s %s' % (show(lid).replace(show(R.line), 'line'), cfg), loc=x.loc)
             else:
@@ -363,11 +397,52 @@ def check_reader(rep, R):
                   want='project_lecturers[pair.project_index]', construct='pair lecturer %s' % (show(v[2]).replace(show(pair), 'pair') if v[0] == 'idx' else '?'), loc=e.loc)
 
 
+def stab_gated_functions(repo):
+    """Functions of the solver package that are reachable ONLY through calls guarded by the stability option
+    (-stab requires -twopl, C16.R4, so every pair has a rank_lecturer there)."""
+    funcs = [f for f in repo.all_funcs() if f.relpath.startswith(repo.rel('solver'))]
+    byname = {}
+    for f in funcs:
+        byname.setdefault(f.name, []).append(f)
+    sites = {}      # callee name -> list of (caller func, guarded?)
+    for f in funcs:
+        parents = {}
+        for p_ in ast.walk(f.node):
+            for ch in ast.iter_child_nodes(p_):
+                parents[ch] = p_
+        for x in ast.walk(f.node):
+            if isinstance(x, ast.Call):
+                nm = x.func.attr if isinstance(x.func, ast.Attribute) else (x.func.id if isinstance(x.func, ast.Name) else None)
+                if nm not in byname:
+                    continue
+                guarded = False
+                cur = x
+                while cur in parents:
+                    par = parents[cur]
+                    if isinstance(par, (ast.If, ast.IfExp)) and cur is not par.test:
+                        in_body = (cur in par.body) if isinstance(par, ast.If) else (cur is par.body)
+                        t = ast.unparse(par.test)
+                        if in_body and ('STAB' in t or 'stable_correctness' in t or 'stability_requested' in t):
+                            guarded = True
+                    cur = par
+                sites.setdefault(nm, []).append((f, guarded))
+    gated = set()
+    changed = True
+    while changed:
+        changed = False
+        for nm, ss in sites.items():
+            if nm in gated:
+                continue
+            if ss and all(g or caller.name in gated for caller, g in ss):
+                gated.add(nm)
+                changed = True
+    return gated
+
+
 def check_cost_readers(rep, repo):
-    """Every read of .rank_lecturer outside the stability code is guarded by hasattr(<same object>, 'rank_lecturer')."""
-    STAB_ONLY = {'stability_constraints': 'called only under extra_constraints[STAB]; -stab requires -twopl (C16.R4)',
-                 'check_stability': 'called only when stability was requested', 'get_worst_rank_projects': 'helper of check_stability',
-                 'get_worst_rank_lecturers': 'helper of check_stability', 'set_lecturer_rank': 'the writer'}
+    """Every read of .rank_lecturer outside stability-gated code is guarded by hasattr(<same object>, 'rank_lecturer')."""
+    gated = stab_gated_functions(repo)
+    rep.extra['stability_gated_functions'] = sorted(gated)
     n = 0
     for f in repo.all_funcs():
         if not f.relpath.startswith(repo.rel('solver')):
@@ -379,34 +454,36 @@ def check_cost_readers(rep, repo):
         for x in ast.walk(f.node):
             if isinstance(x, ast.Attribute) and x.attr == 'rank_lecturer' and isinstance(x.ctx, ast.Load):
                 n += 1
-                if f.name in STAB_ONLY:
+                if f.name in gated:
                     continue
                 base = ast.unparse(x.value)
+                def is_guard(t):
+                    for y in ast.walk(t):
+                        if isinstance(y, ast.Call) and isinstance(y.func, ast.Name) and y.func.id == 'hasattr' and len(y.args) == 2 \
+                                and ast.unparse(y.args[0]) == base and isinstance(y.args[1], ast.Constant) and y.args[1].value == 'rank_lecturer':
+                            return True
+                    return False
                 guarded = False
                 cur = x
                 while cur in parents:
                     par = parents[cur]
                     if isinstance(par, (ast.If, ast.IfExp)) and cur is not par.test:
                         in_body = (cur in par.body) if isinstance(par, ast.If) else (cur is par.body)
-                        for t in ast.walk(par.test):
-                            if isinstance(t, ast.Call) and isinstance(t.func, ast.Name) and t.func.id == 'hasattr' and len(t.args) == 2 \
-                                    and ast.unparse(t.args[0]) == base and isinstance(t.args[1], ast.Constant) and t.args[1].value == 'rank_lecturer' and in_body:
+                        if in_body and is_guard(par.test):
+                            guarded = True
+                    if isinstance(par, ast.BoolOp) and isinstance(par.op, ast.And):
+                        k = par.values.index(cur) if cur in par.values else -1
+                        if any(is_guard(v) for v in par.values[:max(k, 0)]):
+                            guarded = True
+                    if isinstance(par, (ast.ListComp, ast.GeneratorExp, ast.SetComp, ast.DictComp)):
+                        for gen in par.generators:
+                            if any(is_guard(c) for c in gen.ifs):
                                 guarded = True
                     cur = par
                 rep.check(guarded, 'C10.R4', f.where, 'cost code reads rank_lecturer only where the pair has one (one-sided runs have no lecturer cost)', got=ast.unparse(x),
-                          want="guarded by hasattr(%s, 'rank_lecturer')" % base, construct='unguarded rank_lecturer read in %s' % f.qualname, loc='%s:%d' % (f.relpath, x.lineno))
+                          want="guarded by hasattr(%s, 'rank_lecturer'), or reachable only under -stab" % base, construct='unguarded rank_lecturer read in %s' % f.qualname,
+                          loc='%s:%d' % (f.relpath, x.lineno))
     rep.count('rank_lecturer_reads', n)
-    # the stability-only functions really are reached only from stability-guarded calls
-    callers = {}
-    for f in repo.all_funcs():
-        for x in ast.walk(f.node):
-            if isinstance(x, ast.Call) and isinstance(x.func, ast.Attribute) and x.func.attr in STAB_ONLY:
-                callers.setdefault(x.func.attr, set()).add(f.name)
-    allowed = {'stability_constraints': {'add_constraints'}, 'check_stability': {'get_results'}, 'get_worst_rank_projects': {'check_stability'},
-               'get_worst_rank_lecturers': {'check_stability'}, 'set_lecturer_rank': {'_set_lecturer_ranks'}}
-    for k, cs in callers.items():
-        rep.check(cs <= allowed.get(k, set()), 'C10.R4', 'matchingproblems/solver', '%s (reads rank_lecturer unguarded) is only called from stability-gated code' % k, got=sorted(cs),
-                  want=sorted(allowed.get(k, set())), construct='%s callers %s' % (k, sorted(cs)))
 
 
 def check_derived(rep, repo):
